@@ -12,8 +12,8 @@
 From Coq Require Import List NArith ZArith Bool Arith.
 From PV Require Import Lib.ListX Model.FmtLit Model.FmtPratt Model.Fmt Model.FmtTy Model.FmtStmt Model.FmtInst
   Proofs.FmtPrattProofs Proofs.FmtProofs Proofs.FmtTyProofs Proofs.FmtStmtProofs Proofs.FmtLitProofs Proofs.FmtInstProofs Gen.GenCodegen.
-From PV Require Model.Lexer Model.LexerGen Model.LexerInterp Proofs.LexProofs Proofs.LexRelexDefs Proofs.LexRelex Proofs.LexForward
-  Proofs.FmtInterpProofs Proofs.FmtLexProofs.
+From PV Require Import Model.FmtLex Model.FmtLexInst.
+From PV Require Model.Lexer Model.LexerGen Model.LexerInterp Proofs.FmtInterpProofs Proofs.FmtLexInstProofs.
 Import ListNotations.
 Local Open Scope N_scope.
 
@@ -146,20 +146,12 @@ Proof. exact (parse_prog_mono P_prql). Qed.
 Print Assumptions parse_prog_fuel_monotone.
 
 (* ================================================================== text level, through the model of the real lexer *)
-(* Obligations on the lexer tables regenerated by C17's translator (the same C17 states) and across the two sets of
-   tables: the formatter's reserved words cover the lexer's keywords and true / false / null; true / false / null are
-   spelled alike; every operator spelling of the formatter is a control character or a two-character operator of the
-   lexer; `=`, `|` are control characters and `=>` is an operator. *)
-Notation LT := LexerGen.gen_tables.
-Definition text_tables_ok : bool :=
-  LexProofs.tables_wf LT && LexRelexDefs.relex_tables_ok LT && LexForward.forward_tables_ok LT &&
-  forallb (fun k => existsb (leqb k) (it_disp_reserved I_prql) && existsb (leqb k) (it_fmt_keywords I_prql))
-          (Lexer.t_keywords LT ++ LexRelexDefs.words LT) &&
-  leqb (Lexer.t_true LT) w_true && leqb (Lexer.t_false LT) w_false && leqb (Lexer.t_null LT) w_null &&
-  forallb (fun txt => match FmtLexProofs.sym_kind LT txt with Some _ => true | None => false end) symtab &&
-  Lexer.c_in 61 (Lexer.t_controls LT) && Lexer.c_in 124 (Lexer.t_controls LT) &&
-  match FmtLexProofs.sym_kind LT [61; 62] with Some _ => true | None => false end.
-Theorem fmt_text_tables : text_tables_ok = true.
+(* The finite obligation on the lexer tables regenerated by C17's translator and across the two sets of tables
+   (Proofs/FmtLexInstProofs.v text_tables_ok): C17's three table obligations; the words both identifier printers put in
+   backticks cover the lexer's keywords and true / false / null, spelled alike; every operator spelling of the formatter is
+   a control character or a two-character operator of the lexer, `=` and `|` are control characters, `=>` is an operator;
+   the kinds of the spellings read back as the symbols. *)
+Theorem fmt_text_tables : FmtLexInstProofs.text_tables_ok = true.
 Proof. vm_compute. reflexivity. Qed.
 Print Assumptions fmt_text_tables.
 
@@ -245,43 +237,29 @@ Section UnicodeClasses.
     - exact (FmtInterpProofs.interp_content_parses is_alpha is_alnum ascii_alpha ascii_alnum I_prql fmt_ident_tables parts Hc).
   Qed.
 
-  (* ---- the SPACED FRAGMENT at text level: a token list made of bare one-part identifiers, true / false / null,
-          non-negative integers, double-quoted strings of printable ASCII without quote and backslash, parameters, binary
-          operator symbols, aliases `name =`, `|` and `=>` -- the tokens between any two of which the renderer writes one
-          blank -- is rendered to a text that the model of the real lexer (C17: Model/Lexer.v on the regenerated tables)
-          lexes to exactly the kinds of those tokens.  Outside: parentheses, brackets, commas, unary operators, named
-          arguments (no blank at their side), ranges, floats, dates, raw strings, interpolations, backticked names. *)
-  Notation spaced := (FmtLexProofs.spaced_tok R_prql (length symtab)).
-  Notation kinds := (FmtLexProofs.tok_kinds (fun s => FmtLexProofs.kind_or_start (FmtLexProofs.sym_kind LT (nth s symtab [])))
-                                            (FmtLexProofs.kind_or_start (FmtLexProofs.sym_kind LT [61; 62]))).
-  Theorem fmt_text_lexes : forall ts, forallb spaced ts = true -> ts <> [] ->
+  (* ---- the SPACED FRAGMENT at text level (Model/FmtLex.v): a non-empty token list made of bare one-part identifiers,
+          true / false / null, non-negative integers up to i64::MAX, double-quoted strings of printable ASCII without quote
+          characters and backslash, parameters, binary operator symbols, aliases `name =`, `|` and `=>` -- the tokens
+          between any two of which the renderer writes one blank -- is rendered to a text that the model of the real lexer
+          (C17: Model/Lexer.v on the regenerated tables) lexes to exactly the kinds of those tokens, and reading those kinds
+          back (identifier directly followed by the control `=`: an alias; controls and operators by spelling) gives the
+          token list.  Outside the fragment: parentheses, brackets, commas, unary operators, named arguments (no blank at
+          their side), ranges, floats, dates, raw strings, interpolations, backticked names, keywords, line breaks. *)
+  Theorem fmt_text_lexes : forall ts, spaced_prql ts = true ->
     exists toks, Lexer.lex is_alpha is_alnum LT (render R_prql ts) = Some (Lexer.start_token :: toks) /\
-                 map Lexer.tkind toks = flat_map kinds ts.
-  Proof.
-    pose proof fmt_text_tables as H. unfold text_tables_ok in H.
-    apply andb_true_iff in H as [H Harrow]. apply andb_true_iff in H as [H Hpipe]. apply andb_true_iff in H as [H Heq].
-    apply andb_true_iff in H as [H Hsym]. apply andb_true_iff in H as [H Hnull]. apply andb_true_iff in H as [H Hfalse].
-    apply andb_true_iff in H as [H Htrue]. apply andb_true_iff in H as [H Hkw]. apply andb_true_iff in H as [H FK].
-    apply andb_true_iff in H as [WF TK].
-    pose proof (FmtLexProofs.symtab_lexes LT is_alpha is_alnum TK FK symtab Hsym) as [HS HF].
-    assert (HA : LexForward.lexes_as is_alpha is_alnum LT [61; 62] (FmtLexProofs.kind_or_start (FmtLexProofs.sym_kind LT [61; 62]))
-                 /\ LexForward.kind_finite (FmtLexProofs.kind_or_start (FmtLexProofs.sym_kind LT [61; 62])) = true).
-    { destruct (FmtLexProofs.sym_kind LT [61; 62]) as [k|] eqn:E; [|discriminate Harrow].
-      exact (FmtLexProofs.sym_kind_lexes LT is_alpha is_alnum TK FK _ k E). }
-    destruct HA as [HA1 HA2].
-    apply (FmtLexProofs.render_lexes R_prql (length symtab) LT is_alpha is_alnum _ _ WF TK FK ascii_alpha ascii_alnum fmt_ident_tables).
-    - intros w K. rewrite forallb_forall in Hkw.
-      assert (Hin : In w (Lexer.t_keywords LT ++ LexRelexDefs.words LT)) by (apply in_or_app; exact K).
-      specialize (Hkw w Hin). apply andb_true_iff in Hkw. exact Hkw.
-    - repeat split; apply leqb_spec; assumption.
-    - exact HS.
-    - exact Heq.
-    - exact Hpipe.
-    - exact HA1.
-    - split; [exact HF | exact HA2].
-  Qed.
+                 map Lexer.tkind toks = kinds_prql ts /\ untok_prql (map Lexer.tkind toks) = Some ts.
+  Proof. exact (FmtLexInstProofs.text_lexes fmt_text_tables fmt_ident_tables is_alpha is_alnum ascii_alpha ascii_alnum). Qed.
+
+  (* ---- composed with fmt_expr_roundtrip: for a well-formed tree whose token list is in the fragment, the printed TEXT, read
+          by the lexer model and then by the parser model, is the tree *)
+  Theorem fmt_expr_text_roundtrip : forall e, wf e = true -> ops_ok nbin nun e = true -> is_named e = false ->
+    spaced_prql (fmt_toks e) = true ->
+    exists toks f0, Lexer.lex is_alpha is_alnum LT (fmt_text e) = Some (Lexer.start_token :: toks) /\
+                    forall f, (f0 <= f)%nat -> parse_kinds f (map Lexer.tkind toks) = Some e.
+  Proof. exact (FmtLexInstProofs.expr_text_roundtrip fmt_text_tables fmt_ident_tables is_alpha is_alnum ascii_alpha ascii_alnum fmt_compat). Qed.
 End UnicodeClasses.
 Print Assumptions fmt_text_lexes.
+Print Assumptions fmt_expr_text_roundtrip.
 Print Assumptions fmt_expr_ident_roundtrip.
 Print Assumptions fmt_ident_roundtrip.
 Print Assumptions fmt_interpolation_roundtrip.
@@ -352,16 +330,26 @@ Proof. vm_compute. repeat split; reflexivity. Qed.
 Definition text_example : list tok :=
   [TAlias [120]; TA (AIdent [[97]]); TS (sym_index [43]) false; TA (ALit (LInt 5)); TPipe; TA (ALit (LStr [115; 32; 116])); TArrow;
    TA (AParam [112]); TS (sym_index [63; 63]) false; TA (ALit LNull)].
+(* `x = a * 5 + $p ?? null`: a tree whose printed text needs no parenthesis -- text, lexer model, parser model, tree *)
+Definition text_expr : expr := EAlias [120] (EBin 16 (EBin 5 (EBin 0 (idn 97) (EAtom (ALit (LInt 5)))) (EAtom (AParam [112]))) (EAtom (ALit LNull))).
+Example ex_text_expr :
+  wf text_expr = true /\ spaced_prql (fmt_toks text_expr) = true /\
+  fmt_text text_expr = [120; 32; 61; 32; 97; 32; 42; 32; 53; 32; 43; 32; 36; 112; 32; 63; 63; 32; 110; 117; 108; 108] /\
+  match Lexer.lex ascii_alpha_f ascii_alnum_f LT (fmt_text text_expr) with
+  | Some (_ :: toks) => parse_kinds 40 (map Lexer.tkind toks) | _ => None end = Some text_expr.
+Proof. vm_compute. repeat split; reflexivity. Qed.
 Example ex_text_level :
-  forallb (FmtLexProofs.spaced_tok R_prql (length symtab)) text_example = true /\
+  spaced_prql text_example = true /\
   render R_prql text_example = [120; 32; 61; 32; 97; 32; 43; 32; 53; 32; 124; 32; 34; 115; 32; 116; 34; 32; 61; 62; 32; 36; 112; 32; 63; 63; 32; 110; 117; 108; 108] /\
   option_map (map Lexer.tkind) (Lexer.lex ascii_alpha_f ascii_alnum_f LT (render R_prql text_example)) =
     Some [Lexer.KStart; Lexer.KIdent [120]; Lexer.KControl 61; Lexer.KIdent [97]; Lexer.KControl 43; Lexer.KLiteral (Lexer.LInt 5); Lexer.KControl 124;
           Lexer.KLiteral (Lexer.LString [115; 32; 116]); Lexer.KOp [65; 114; 114; 111; 119; 70; 97; 116]; Lexer.KParam [112];
           Lexer.KOp [67; 111; 97; 108; 101; 115; 99; 101]; Lexer.KLiteral Lexer.LNull] /\
+  untok_prql (kinds_prql text_example) = Some text_example /\
   (* outside the fragment: a parenthesis, a unary operator, a range, a keyword used as a name (written in backticks) *)
-  forallb (fun t => negb (FmtLexProofs.spaced_tok R_prql (length symtab) t))
-          [TOpen GTup; TS 0 true; TRg true true; TA (AIdent [[108; 101; 116]]); TA (ALit (LInt (-1))); TA (ALit (LStr [34]))] = true.
+  forallb (fun t => negb (spaced_tok R_prql (length symtab) t))
+          [TOpen GTup; TS 0 true; TRg true true; TA (AIdent [[108; 101; 116]]); TA (ALit (LInt (-1))); TA (ALit (LStr [34]))] = true /\
+  spaced_prql [] = false.
 Proof. vm_compute. repeat split; reflexivity. Qed.
 Example ex_unicode_classes :
   (forall c, c < 128 -> ascii_alpha_f c = in_ranges letters c) /\
